@@ -82,6 +82,9 @@ func loadFor(repo string, s *spec.Spec, tags []string, env []string, overlay map
 			}
 			res = res2
 		}
+		if err != nil && res == nil {
+			return nil, nil, err
+		}
 		loads = append(loads, res)
 		var roots []string
 		for _, p := range res.Roots {
